@@ -74,7 +74,7 @@ theorem nested_np_eq : ({ buf := newPP.buf, override := newPP.override } : PP) =
 theorem nested_print_route (env : Env) (he : EnvOk env) (n : Nat) (args : Vals) (ha : ValsOk args) (q : PP)
     (h : doPrint env (n + 1) newPP args.toList = .ok q) (htb : tailBad q.buf.redactableBytes = false) :
     ∃ q', runScript env (n + 2) newPP (.print args .done) = .ok q' ∧ q'.buf.redactableBytes = q.buf.redactableBytes := by
-  have hq := (spec_all env he (n + 1)).doPrint newPP args.toList pre_newPP (listOk_of_valsOk _ ha) q h
+  have hq := ((spec_all env he (n + 1)).doPrint newPP args.toList pre_newPP (listOk_of_valsOk _ ha)).1 q h
   refine ⟨{ newPP with buf := q.buf.setMode newPP.buf.mode }, ?_, ?_⟩
   · simp only [runScript, nested_np_eq, h]
   · exact finalize_setMode q.buf hq.1 _ htb
@@ -82,7 +82,7 @@ theorem nested_print_route (env : Env) (he : EnvOk env) (n : Nat) (args : Vals) 
 theorem nested_printf_route (env : Env) (he : EnvOk env) (n : Nat) (f : List Byte) (args : Vals) (ha : ValsOk args) (q : PP)
     (h : doPrintf env (n + 1) newPP f args.toList = .ok q) (htb : tailBad q.buf.redactableBytes = false) :
     ∃ q', runScript env (n + 2) newPP (.printf f args .done) = .ok q' ∧ q'.buf.redactableBytes = q.buf.redactableBytes := by
-  have hq := (spec_all env he (n + 1)).doPrintf newPP f args.toList pre_newPP (listOk_of_valsOk _ ha) q h
+  have hq := ((spec_all env he (n + 1)).doPrintf newPP f args.toList pre_newPP (listOk_of_valsOk _ ha)).1 q h
   refine ⟨{ newPP with buf := q.buf.setMode newPP.buf.mode }, ?_, ?_⟩
   · simp only [runScript, nested_np_eq, h]
   · exact finalize_setMode q.buf hq.1 _ htb
